@@ -6,6 +6,7 @@
 From Coq Require Import ZArith NArith List.
 From DL Require Import Lib.Bytes Lib.F64 Lua.Syntax Lua.Sem Lua.DataSpec Model.Serializer.
 From DL Require Import Proof.SerializerSound Proof.SerializerTheorems.
+From DL Require Model.Lexer.
 Import ListNotations.
 Open Scope N_scope.
 
@@ -82,3 +83,22 @@ Print Assumptions C14_nan_key_refuted.
 Check C14_nan_key_refuted :
   exists d e, to_expression d = Some e /\
     forall dialect, exists s', eval dialect 4 [] [] e (initial_store []) = Err (ERun 12) s'.
+
+(** A key written bare ([name = v]) is a Lua name and not a reserved word, in the terms of the
+    reference lexer (Model/Lexer.v); every other key is written [["..."] = v] (the split is
+    [table_entry] in the model). *)
+Theorem C14_field_names_are_names : forall s, is_valid_identifier s = true ->
+  exists c r, s = c :: r /\ Lexer.is_ident_start c = true /\
+              forallb Lexer.is_ident_char r = true /\ Lexer.is_keyword s = false.
+Proof. exact field_names_are_names. Qed.
+Print Assumptions C14_field_names_are_names.
+Check C14_field_names_are_names : forall s, is_valid_identifier s = true ->
+  exists c r, s = c :: r /\ Lexer.is_ident_start c = true /\
+              forallb Lexer.is_ident_char r = true /\ Lexer.is_keyword s = false.
+
+(** non-vacuity: a document with keyword / non-identifier / duplicate / integer keys, nulls and
+    an integer beyond 2^53 meets the hypotheses *)
+Example C14_example_hypotheses :
+  wf_keys example_doc /\ seq_len_ok example_doc /\ ints_supported example_doc /\
+  exists e, to_expression example_doc = Some e.
+Proof. exact example_doc_hypotheses. Qed.
